@@ -1,97 +1,166 @@
 import SFV.Proofs.IoIR
+import SFV.Proofs.IoPi
 /-!
 # C14 — saving and loading a program preserves its meaning
 
 Statements over the K8 model (`SFV/Model/IoIR.lean`): `toBB`/`toProgramBB`, `toXIR`/`toProgramXIR` are
-transcriptions of the SF converters; the library text layer is `reparseBB` (Blackbird recomputes the
-mode set) resp. the identity (XIR) — a hypothesis validated through real text on every run.
+transcriptions of the SF converters.  Two library layers enter as explicit data / hypotheses, validated
+on every run against the installed libraries: the text layer (`reparseBB`: Blackbird recomputes the mode
+set and text carries no held values; XIR: identity) and SymPy's parser as the table
+`P : String → Option Sym` (the fragment predicates demand `P (printed form of e) = some e`).
 "Same meaning" is equality of every field of the program (`Prog`: operations, parameters, modes, flags,
 options, target, TDM arrays) up to (i) the dagger normal form `normCmd` for Blackbird, which has no
 syntax for `.H` (an inverted gate of `NEGATION_INVERTS` *is* the gate with negated first parameter —
-the convention of `ops.Gate`), and (ii) trailing unused modes (`n` becomes `usedModes`).
+the convention of `ops.Gate`), (ii) trailing unused modes (`n` becomes what a reader can infer) and
+(iii) the values parameters happen to hold (`clearCmd`: a freshly loaded program holds none).
 -/
 namespace SFV.C14
 open SFV.Io
 
-/-- **Blackbird round trip, whole programs.**  For every (non-TDM) program of the expressible fragment
-(`ExprBB`: any number of commands on any modes; numeric / array / measured-expression parameters;
-`select` / `dark_counts`; inverted gates of `NEGATION_INVERTS`; target with run options), writing with
-`to_blackbird`, passing through text and reading with `to_program` succeeds and returns the program
-itself in dagger normal form.  No flag, parameter, mode, option is dropped. -/
-theorem roundtrip_blackbird (p : Prog) (h : ExprBB p) :
-    ∃ bb, toBB p = .ok bb ∧ toProgramBB (reparseBB bb) = .ok (normBB p) :=
-  bb_prog_rt p h
+/-- **Blackbird round trip, whole programs, ordinary and TDM.**  For every program of the expressible
+fragment `ExprBB` (any number of commands on any modes; numbers, arrays, strings, expressions of measured
+parameters, expressions of free parameters, TDM loop variables and expressions of them; `select` /
+`dark_counts`; inverted gates of `NEGATION_INVERTS`; `Fouriergate`; target with shots / cutoff; TDM arrays
+with `N = [modes]`), `to_blackbird` succeeds and text + `to_program` return the program itself in dagger
+normal form.  Nothing is dropped: flags, parameters, modes, options, per-bin arrays. -/
+theorem roundtrip_blackbird (P : String → Option ISym) (p : Prog) (h : ExprBB P p) :
+    ∃ bb, toBB p = .ok bb ∧ toProgramBB P (reparseBB bb) = .ok (normBB p) :=
+  bb_prog_rt P p h
+
+/-- `2*q0` with its negation, as SymPy reports it; currently evaluating to 1/2 (measured in an earlier run) -/
+def exMeas : Sym :=
+  { pos := ⟨"2*q0", "2*q0", false, none⟩, neg := ⟨"-2*q0", "-2*q0", false, none⟩, meas := [0], frees := [],
+    val := some (.flt (1/2)) }
+
+/-- `2*{x} + 1`, bound to 3/2 -/
+def exFree : Sym :=
+  { pos := ⟨"2*{x} + 1", "2*x + 1", false, none⟩, neg := ⟨"-2*{x} - 1", "-2*x - 1", false, none⟩, meas := [],
+    frees := ["x"], val := some (.flt (3/2)) }
+
+/-- SymPy's parser on the strings involved -/
+def exP : String → Option ISym := fun s =>
+  if s = "2*{x} + 1" ∨ s = "2*x + 1" then some { toI exFree with val := none }
+  else if s = "-2*{x} - 1" ∨ s = "-2*x - 1" then some { toI exFree.negate with val := none }
+  else if s = "2*q0" then some { toI exMeas with val := none } else none
 
 def exProg : Prog :=
   { name := "ex", n := 4, target := some "gaussian", shots := some 3, cutoff := some 5,
     cmds := [
       { cls := "Sgate", regs := [2], pars := [.sc (.flt (1/2)), .sc (.flt (1/8))], dagger := true },
-      { cls := "BSgate", regs := [2, 0], pars := [.sc (.flt (1/4)), .sc (.int 0)] },
+      { cls := "BSgate", regs := [2, 0], pars := [.sym exFree, .sc (.int 0)], dagger := true },
       { cls := "MeasureHomodyne", regs := [0], pars := [.sc (.flt (1/4))], select := some (.sc (.flt (1/2))) },
-      { cls := "Zgate", regs := [1], dagger := true,
-        pars := [.sym { pos := ⟨"2*q0", "2*q0", false, none⟩, neg := ⟨"-2*q0", "-2*q0", false, none⟩,
-                        meas := [0], frees := [] }] },
+      { cls := "Zgate", regs := [1], dagger := true, pars := [.sym exMeas] },
+      { cls := "Fouriergate", regs := [1], pars := [halfPi] },
       { cls := "Interferometer", regs := [1, 2],
         pars := [.arr [2, 2] [.cpx 0 1, .int 0, .int 0, .cpx 0 1]] },
       { cls := "MeasureFock", regs := [2, 1], dark := some (.lst [.flt (1/8), .flt (1/4)]) } ] }
 
-/-- non-vacuity: a 4-mode program with a trailing unused mode, inverted gates, a measured-parameter
-expression, an array, post-selection, dark counts, target and options is in the fragment, and the
-model really drops nothing on it -/
-example : ExprBB exProg := by
-  refine ⟨rfl, by decide, (by intro h; cases h), ?_⟩
-  intro c hc
-  simp only [exProg, List.mem_cons, List.not_mem_nil, or_false] at hc
-  rcases hc with rfl | rfl | rfl | rfl | rfl | rfl
-  · refine ⟨by decide, rfl, Or.inr ⟨by decide, rfl, rfl, ?_, ?_⟩⟩
-    · intro v hv; simp only [List.mem_cons, List.not_mem_nil, or_false] at hv
-      rcases hv with rfl | rfl <;> trivial
-    · intro _; exact ⟨by decide, _, _, _, rfl, rfl, trivial⟩
-  · refine ⟨by decide, rfl, Or.inr ⟨by decide, rfl, rfl, ?_, by intro h; cases h⟩⟩
-    intro v hv; simp only [List.mem_cons, List.not_mem_nil, or_false] at hv
-    rcases hv with rfl | rfl <;> trivial
-  · refine ⟨by decide, rfl, Or.inl ⟨by decide, rfl, ?_, ?_, ?_, Or.inl rfl⟩⟩
-    · intro v hv; simp only [List.mem_cons, List.not_mem_nil, or_false] at hv
-      subst hv; trivial
-    · intro v hv; cases hv; trivial
-    · intro v hv; cases hv
-  · refine ⟨by decide, rfl, Or.inr ⟨by decide, rfl, rfl, ?_, ?_⟩⟩
-    · intro v hv; simp only [List.mem_cons, List.not_mem_nil, or_false] at hv
-      subst hv; exact Or.inl ⟨by decide, by decide⟩
-    · intro _; exact ⟨by decide, _, _, _, rfl, rfl, Or.inl ⟨by decide, by decide⟩⟩
-  · refine ⟨by decide, rfl, Or.inr ⟨by decide, rfl, rfl, ?_, by intro h; cases h⟩⟩
-    intro v hv; simp only [List.mem_cons, List.not_mem_nil, or_false] at hv
-    subst hv; trivial
-  · refine ⟨by decide, rfl, Or.inl ⟨by decide, rfl, ?_, ?_, ?_, Or.inr rfl⟩⟩
-    · intro v hv; cases hv
-    · intro v hv; cases hv
-    · intro v hv; cases hv; trivial
-
-example : (toBB exProg >>= fun bb => toProgramBB (reparseBB bb)) = .ok (normBB exProg) := by rfl
+/-- non-vacuity: on a 4-mode program with a trailing unused mode, inverted gates with numeric, free and
+measured first parameters (holding values), `Fouriergate`, a complex array, post-selection, dark counts,
+target and options, the composed model functions return the normal form, and the normal form differs
+from the program (dagger, values, `n`) -/
+example : (toBB exProg >>= fun bb => toProgramBB exP (reparseBB bb)) = .ok (normBB exProg) := by decide +kernel
 example : normBB exProg ≠ exProg := by decide +kernel
 
-/-- **one command through Blackbird**, the lemma the program theorem is an induction over: the written
-operation carries the command's modes and reads back as the command in dagger normal form. -/
-theorem roundtrip_blackbird_command (n k : Nat) (c : Cmd) (h : CmdBB false n k c) :
-    ∃ o, toBBOp false c = .ok o ∧ o.modes = c.regs ∧ fromBBOp n o = .ok (normCmd c) :=
+/-- **XIR round trip, whole programs, ordinary and TDM.**  For every program of the fragment `ExprX`
+(numbers, arrays, expressions of free and measured parameters, TDM loop variables and expressions of
+them, measurement phase / `select` / `dark_counts`, *any* inverse flags, `Fouriergate`, name, target,
+shots, cutoff, `N` and the per-bin arrays), `to_program (to_xir p)` returns `p` itself — `dagger`
+included, nothing normalised except the held values and `n` (highest used mode + 1, for TDM `sum N`). -/
+theorem roundtrip_xir (P : String → Option ISym) (p : Prog) (h : ExprX P p) :
+    toProgramXIR P (toXIR p) = .ok (normX p) :=
+  xir_prog_rt P p h
+
+def exTdm : Prog :=
+  { name := "t", n := 3, target := some "TD2", shots := some 5, cutoff := some 4,
+    tdm := some { N := [1, 2], params := [[.flt (1/8), .flt (1/4)], [.int 1, .int 2]] },
+    cmds := [
+      { cls := "BSgate", regs := [1, 2], pars := [.sym (loopSym 0), .sc (.flt (1/2))], dagger := true },
+      { cls := "Rgate", regs := [1], pars := [.sym (loopSym 1)] },
+      { cls := "MeasureHomodyne", regs := [0], pars := [.sym (loopSym 1)], select := some (.sc (.flt 0)) } ] }
+
+example : toProgramXIR exP (toXIR exTdm) = .ok (normX exTdm) ∧ normX exTdm = exTdm := by decide +kernel
+example : toProgramXIR exP (toXIR exProg) = .ok (normX exProg) ∧ (normX exProg).cmds.map (·.dagger) =
+    exProg.cmds.map (·.dagger) := by decide +kernel
+
+/-- the TDM program with `N = [3]` also goes through Blackbird (the loop variable of the inverted gate
+comes back negated: `-{p0}` is written as a string and parsed) -/
+def exTdmBB : Prog := { exTdm with tdm := some { N := [3], params := [[.flt (1/8), .flt (1/4)], [.int 1, .int 2]] } }
+def exPT : String → Option ISym := fun s => if s = "-{p0}" then some (toI (loopSym 0).negate) else none
+example : (toBB exTdmBB >>= fun bb => toProgramBB exPT (reparseBB bb)) = .ok (normBB exTdmBB) := by decide +kernel
+
+/-- **one command through Blackbird**, the lemma the program theorem is an induction over. -/
+theorem roundtrip_blackbird_command (P : String → Option ISym) (tdm : Bool) (n : Nat) (c : Cmd)
+    (h : CmdBB P tdm n c) :
+    ∃ o, toBBOp tdm c = .ok o ∧ o.modes = c.regs ∧ rdBBOp P tdm n (textOp o) = .ok (clearCmd (normCmd c)) :=
   bb_cmd_rt h
 
-example : CmdBB false 3 0
-    { cls := "BSgate", regs := [2, 0], dagger := true, pars := [.sc (.flt (1/4)), .sc (.flt (1/8))] } :=
-  ⟨by decide, rfl, Or.inr ⟨by decide, rfl, rfl, by
+example : CmdBB exP false 3 { cls := "BSgate", regs := [2, 0], dagger := true, pars := [.sym exFree, .sc (.flt (1/8))] } :=
+  ⟨by decide, rfl, by
     intro v hv; simp only [List.mem_cons, List.not_mem_nil, or_false] at hv
-    rcases hv with rfl | rfl <;> trivial, fun _ => ⟨by decide, _, _, _, rfl, rfl, trivial⟩⟩⟩
+    rcases hv with rfl | rfl
+    · exact Or.inr (Or.inr (Or.inr ⟨by decide, rfl, Or.inl rfl, by decide, by decide⟩))
+    · trivial,
+   Or.inr ⟨by decide, rfl, rfl, Or.inr ⟨by decide, fun _ => ⟨by decide, _, _, _, rfl, rfl,
+     Or.inr (Or.inr (Or.inr ⟨by decide, rfl, Or.inl rfl, by decide, by decide⟩))⟩⟩⟩⟩
+
+/-- **one command through XIR** (gates, preparations, channels, measurements; ordinary and TDM): returned
+unchanged, inverse flag included. -/
+theorem roundtrip_xir_command (P : String → Option ISym) (tdm : Bool) (k n : Nat) (c : Cmd)
+    (h : CmdX P tdm k n c) : rdXStmt P tdm n k (toXStmt tdm c) = .ok (clearCmd c) :=
+  xir_cmd_rt h
+
+example : CmdX exP true 2 3 { cls := "MeasureHomodyne", regs := [0], pars := [.sym (loopSym 1)], select := some (.sc (.flt 0)) } :=
+  ⟨by decide, rfl, Or.inl ⟨by decide, by decide, Or.inr ⟨_, rfl, Or.inr (Or.inl ⟨rfl, 1, by decide, rfl⟩)⟩,
+    (by intro v hv; cases hv; trivial), (by intro v hv; cases hv), Or.inl rfl⟩⟩
+
+/-- **subsystem indices survive their decimal names**: `int(str(n)) = n` for every `n` (any number of
+digits), on the digit-list model of the printing in `MeasuredParameter` and the parsing in `par_convert`. -/
+theorem index_roundtrip (n : Nat) : parseIndex (printIndex n) = some n :=
+  parseIndex_printIndex n
+
+example : printIndex 1203 = ['1', '2', '0', '3'] ∧ parseIndex ['0', '1', '0'] = some 10 ∧ parseIndex [] = none ∧
+    parseIndex ['1', 'x'] = none ∧ measuredIndex "q10" = some 10 ∧ measuredIndex "q1x" = none ∧
+    measuredIndex "quality" = none ∧ measuredIndex "q" = none := by decide +kernel
+
+/-- **TDM loop-variable names**: the index the readers take from the name `p<i>` (`is_ptype`, `int(name[1:])`) is
+`i`, for every `i`; likewise `q<i>` for measured parameters. -/
+theorem loop_variable_name_roundtrip (i : Nat) : ptypeIndex (pName i) = some i ∧ measuredIndex (qName i) = some i :=
+  ⟨ptypeIndex_pName i, measuredIndex_qName i⟩
+
+example : pName 12 = "p12" ∧ ptypeIndex "p12" = some 12 ∧ ptypeIndex "p" = none ∧ ptypeIndex "p1x" = none ∧
+    ptypeIndex "q1" = none ∧ qName 10 = "q10" := by decide +kernel
+
+/-- **`par_convert` inverts the writers' naming of atoms**: an expression written under the names of its atoms
+(measured parameter of subsystem `i` ↦ `q<i>`, free parameter ↦ its name) is mapped back to itself, for all
+subsystem indices, provided no free parameter is itself named `q<digits>` (`WellNamed`). -/
+theorem par_convert_inverts_naming (e : Sym) (hw : WellNamed e) : fromI (toI e) = e.noVal :=
+  fromI_toI e hw
+
+def exMix : Sym :=
+  { pos := ⟨"q1 - q10 + {q1x}", "q1 - q10 + q1x", false, none⟩, neg := ⟨"-q1 + q10 - {q1x}", "-q1 + q10 - q1x", false, none⟩,
+    meas := [1, 10], frees := ["q1x"], val := some (.flt (1/2)) }
+
+example : WellNamed exMix ∧ (toI exMix).names = ["q1", "q10", "q1x"] ∧ fromI (toI exMix) = exMix.noVal ∧
+    exMix.noVal ≠ exMix := by decide +kernel
+
+/-- (finding, by construction of the IRs) a free parameter that is itself named `q<digits>` cannot be told from a
+measured parameter: it comes back as the measured parameter of that subsystem -/
+theorem free_parameter_named_like_measured_counterexample :
+    fromI (toI { pos := ⟨"{q1}", "q1", true, none⟩, neg := ⟨"-{q1}", "-q1", false, none⟩, meas := [], frees := ["q1"] }) =
+      { pos := ⟨"{q1}", "q1", true, none⟩, neg := ⟨"-{q1}", "-q1", false, none⟩, meas := [1], frees := [] } := by
+  decide +kernel
 
 /-- **the inverse flag is never silently dropped by the Blackbird writer**: for *every* command
 (no fragment hypothesis), an inverted non-measurement either makes the writer raise, or is written
 with its first parameter negated. -/
 theorem dagger_never_dropped (tdm : Bool) (c : Cmd) (hd : c.dagger = true) (hm : isMeasure c.cls = false)
     (o : BBOp) (h : toBBOp tdm c = .ok o) :
-    ∃ a as b, c.pars = a :: as ∧ a.neg = some b ∧ o.args = (b :: as).map (bbArg tdm) := by
+    ∃ a as b, ctorParams c = a :: as ∧ a.neg = some b ∧ o.args = (b :: as).map (bbArg tdm) := by
   unfold toBBOp at h
   simp only [hm, Bool.false_eq_true, ↓reduceIte, hd] at h
   split at h
-  · cases hp : c.pars with
+  · cases hp : ctorParams c with
     | nil => simp [hp, negFirst, bind, Except.bind] at h
     | cons a as =>
       cases hb : a.neg with
@@ -108,8 +177,8 @@ example : ∃ o, toBBOp false exS = .ok o ∧ o.args = [.sc (.flt (-1/2)), .sc (
 
 /-- **the XIR writer and reader carry the inverse flag of every command** (no hypothesis on the
 command beyond "the reader accepts it"). -/
-theorem xir_inverse_flag (tdm : Bool) (n : Nat) (c c' : Cmd)
-    (h : fromXStmt n (toXStmt tdm c) = .ok c') : c'.dagger = c.dagger := by
+theorem xir_inverse_flag (P : String → Option ISym) (tdm : Bool) (n : Nat) (c c' : Cmd)
+    (h : fromXStmt P n (toXStmt tdm c) = .ok c') : c'.dagger = c.dagger := by
   have hb : ∀ cls regs args kws inv (r : Cmd), build cls regs args kws inv = .ok r → r.dagger = inv := by
     intro cls regs args kws inv r hr
     unfold build at hr
@@ -120,48 +189,61 @@ theorem xir_inverse_flag (tdm : Bool) (n : Nat) (c c' : Cmd)
       · cases hr; rfl
   have hinv : (toXStmt tdm c).inverse = c.dagger := by unfold toXStmt; split <;> rfl
   unfold fromXStmt at h
+  simp only [bind, Except.bind] at h
+  split at h
+  · cases h
   split at h
   · rw [← hinv]; exact hb _ _ _ _ _ _ h
   · rw [← hinv]; exact hb _ _ _ _ _ _ h
-  · simp only [bind, Except.bind] at h
-    split at h
+  · split at h
     · cases h
-    · rw [← hinv]; exact hb _ _ _ _ _ _ h
-  · simp only [bind, Except.bind] at h
-    split at h
+    · split at h
+      · cases h
+      · rw [← hinv]; exact hb _ _ _ _ _ _ h
+  · split at h
     · cases h
     · split at h
       · cases h
       · rw [← hinv]; exact hb _ _ _ _ _ _ h
 
-example : fromXStmt 3 (toXStmt false exS) = .ok exS := by rfl
+example : fromXStmt exP 3 (toXStmt false exS) = .ok exS := by decide +kernel
 
-/- Full statement for XIR (not yet proved in Lean; evaluated against the real code on every run by the
-correspondence pairs `toXIR` / `toProgramXIR` and checked by the oracle):
-  `roundtrip_xir : ExprX p → toProgramXIR (toXIR p) = .ok { p with n := usedModes p }`
-for ordinary and TDM programs (exact equality, including `dagger`), and the TDM Blackbird variant
-  `roundtrip_blackbird_tdm : ExprBBTdm p → ∃ bb, toBB p = .ok bb ∧ toProgramBB (reparseBB bb) = .ok (normBB p)`.
-Missing: the measurement-statement case (keyword parameters `phi/select/dark_counts`) of the XIR command
-lemma, the TDM command lemmas (value lemmas `bb_val_rt_tdm`, `phi_bb_rt_tdm` exist) and the two
-list inductions.  Proved part: -/
+/-- **no state between calls (XIR writer)**: whatever values the symbolic parameters of a program hold
+(bound by `bind_params`, measured in an earlier run), `to_xir` produces the same XIR program.
+(Before the fix the writer evaluated every parameter that had a value: the model's writer had to read
+`Sym.val`, and this statement was false.) -/
+theorem to_xir_ignores_held_values (f : Sym → Option Sc) (p : Prog) : toXIR (p.reval f) = toXIR p :=
+  toXIR_reval f p
 
-/-- **one gate / preparation / channel command through XIR**: for every such command with numeric and
-array parameters (1-D arrays: shape = length), any modes, any inverse flag, `from_xir (to_xir c)` returns
-the command itself — nothing normalised, the `dagger` flag included. -/
-theorem roundtrip_xir_command_partial (n : Nat) (c : Cmd) (hF : c.cls ≠ "Fouriergate") (hkw : c.kw = [])
-    (hm : isMeasure c.cls = false) (hs : c.select = none) (hd : c.dark = none)
-    (hv : ∀ v ∈ c.pars, ValX false 0 v) : fromXStmt n (toXStmt false c) = .ok c :=
-  xir_gate_rt hF hkw hm hs hd hv
+example : exProg.reval (fun _ => none) ≠ exProg ∧ toXIR (exProg.reval fun _ => none) = toXIR exProg := by
+  decide +kernel
 
-def exI : Cmd := { cls := "Interferometer", regs := [3, 1], pars := [.arr [2, 2] [.cpx 0 1, .int 0, .int 0, .cpx 0 1]] }
+/-- **no state between calls (Blackbird writer)**: the text written for any command (inverted or not,
+measurement or not) does not depend on the values its symbolic parameters hold; the whole program is
+written command by command (`List.mapM`). -/
+theorem to_blackbird_text_ignores_held_values (f : Sym → Option Sc) (tdm : Bool) (c : Cmd) :
+    (toBBOp tdm (c.reval f)).map textOp = (toBBOp tdm c).map textOp :=
+  toBBOp_reval f tdm c
 
-example : exI.cls ≠ "Fouriergate" ∧ isMeasure exI.cls = false ∧ (∀ v ∈ exI.pars, ValX false 0 v) ∧
-    fromXStmt 4 (toXStmt false exI) = .ok exI := by
-  refine ⟨by decide, by decide, ?_, by rfl⟩
-  intro v hv
-  simp only [exI, List.mem_cons, List.not_mem_nil, or_false] at hv
-  subst hv
-  intro m hm; cases hm
+example : (exProg.cmds.map fun c => (toBBOp false (c.reval fun _ => none)).map textOp) =
+    exProg.cmds.map (fun c => (toBBOp false c).map textOp) ∧
+    (exProg.cmds.map fun c => toBBOp false (c.reval fun _ => none)) ≠ exProg.cmds.map (toBBOp false) := by
+  decide +kernel
+
+/-- **the source tables the model transcribes are today's tables** (regenerated from `ops.py` and
+`blackbird_io.py` on every build): `NEGATION_INVERTS` is exactly the list of gates for which the `ops.Gate`
+convention "inverse = negated first parameter" is assumed (adding `MZgate`, a channel or a preparation
+breaks the build), every member is an operation class the readers accept, and the only constructors
+without arguments are those of `Fouriergate` (fixed parameter) and `Vacuum` (no parameter). -/
+theorem source_tables_agree :
+    SFV.Gen.ioNegationInverts = ["BSgate", "CKgate", "CXgate", "CZgate", "Dgate", "Kgate", "Pgate", "Rgate",
+      "S2gate", "Sgate", "Vgate", "Xgate", "Zgate"] ∧
+    (∀ cls ∈ SFV.Gen.ioClassNames ++ SFV.Gen.ioShorthands, negInverts cls = SFV.Gen.ioNegationInverts.contains cls) ∧
+    (∀ cls ∈ SFV.Gen.ioNegationInverts, SFV.Gen.ioClassNames.contains cls = true) ∧
+    SFV.Gen.ioNoArgCtors = ["Fouriergate", "Vacuum"] := by decide +kernel
+
+example : SFV.Gen.ioClassNames.length = 39 ∧ negInverts "MZgate" = false ∧ negInverts "LossChannel" = false := by
+  decide +kernel
 
 /-- **`_factor_out_pi`**: for every integer `m`, the term `c*np.pi/d` printed for `m·π/12` denotes it
 (`c/d = m/12`, `d > 0`).  (With the truncating `int(p / factor)` of the original code this is false.) -/
@@ -172,32 +254,93 @@ theorem factor_out_pi_denotes (m : Int) :
 example : piTerm 60 = (5, 1) ∧ piString 60 = "5*np.pi" ∧ piTerm 63 = (21, 4) ∧ piTerm (-2) = (-1, 6) := by
   decide +kernel
 
+/-- **`generate_code`: executing the printed code rebuilds the program.**  For every program whose
+parameters are numbers or TDM loop variables (any classes, modes, inverse flags, `select`, `dark_counts`,
+`Fouriergate`, TDM `N` and per-bin arrays), the meaning of the printed text (`evalCode`: literals, multiples of
+`np.pi`, `p[i]`, keyword options, `.H`) is the program itself (`codeNorm`: without name / target / options,
+which the code does not state) with every number replaced by what its printed form denotes. -/
+theorem generate_code_rebuilds (p : Prog) (h : ExprCode p) : evalCode (genCode p) = .ok (codeNorm p) :=
+  code_prog_rt p h
+
+/-- `5π/12` as a float: printed `5*np.pi/12` -/
+def exPi : Sc := .flt (5895198126690367 / 4503599627370496)
+
+def exCode : Prog :=
+  { name := "c", n := 3, tdm := some { N := [1, 2], params := [[exPi, .flt (1/4)], [.int 1, .int 2]] },
+    cmds := [
+      { cls := "BSgate", regs := [1, 2], pars := [.sym (loopSym 0), exPi |> Val.sc], dagger := true },
+      { cls := "MeasureHomodyne", regs := [0], pars := [.sym (loopSym 1)], select := some (.sc (.flt 0)) } ] }
+
+example : genNum exPi = .piMul 5 12 ∧ genNum (.flt (1/4)) = .lit (.flt (1/4)) ∧
+    evalCode (genCode exCode) = .ok (codeNorm exCode) ∧ (codeNorm exCode).cmds.map (·.dagger) = [true, false] ∧
+    codeNorm exCode ≠ { exCode with name := "" } := by
+  decide +kernel
+
+/-- **every printed number denotes its parameter**: what `codeNorm` puts in place of a number `q` is `q`
+itself or the value of `c*np.pi/d`, within `3e-6 + 1e-15·|q|` of `q` (`np.isclose` tolerance of
+`_factor_out_pi`; with the truncating original the error was up to `π/12`). -/
+theorem generated_numbers_denote (s : Sc) : ScClose s (denSc s) :=
+  genNum_close s
+
+example : denSc exPi ≠ exPi ∧ denSc (.flt (1/4)) = .flt (1/4) := by decide +kernel
+
+/-- **the window of `_factor_out_pi`**: a number is printed as the multiple `m` of `π/12` only if it lies within
+`2.7e-6` of it. -/
+theorem factor_out_pi_window (q : Rat) (m : Int) (h : piMultiple q = some m) :
+    |q - (m : Rat) * piF| ≤ 27 / 10000000 :=
+  piMultiple_close q m h
+
+example : piMultiple (5895198126690367 / 4503599627370496) = some 5 ∧ piMultiple (13 / 10) = none := by
+  decide +kernel
+
 /-! ### known findings: what the converters do outside the fragment (model = code) -/
-
-/-- a symbolic parameter without measured atoms (a free parameter, an expression of free parameters or
-of TDM loop variables) comes back from Blackbird as a *string*, for every such expression -/
-theorem free_parameter_blackbird_counterexample (n : Nat) (e : Sym) (h : e.meas = [])
-    (hl : e.pos.loop = none) :
-    convert n (unPname (bbArg false (.sym e))) = .ok (.str e.pos.text) ∧
-    convert n (tdmArg (bbArg true (.sym e))) = .ok (.str e.pos.text) := by
-  simp [bbArg, h, hl, unPname, tdmArg, convert]
-
-/-- a string parameter (free parameter name, expression, measured parameter) makes the non-TDM XIR
-reader raise `TypeError`, for every symbolic parameter -/
-theorem symbolic_parameter_xir_counterexample (e : Sym) :
-    xirReadArg (xirArg false (.sym e)) = .error .typeError := by
-  simp only [xirArg]
-  rfl
 
 /-- run options of a program without target are not written to Blackbird -/
 theorem options_without_target_counterexample (p : Prog) (h : p.target = none) (bb : BB)
-    (hb : toBB p = .ok bb) : bb.shots = none ∧ bb.cutoff = none := by
+    (hb : toBB p = .ok bb) : bb.shots = none ∧ bb.cutoff = none ∧ bb.extra = [] := by
   unfold toBB at hb
   simp only [bind, Except.bind] at hb
   split at hb
   · cases hb
   · simp only [h, Option.isSome_none, Bool.false_eq_true, ↓reduceIte, Except.ok.injEq] at hb
-    rw [← hb]; exact ⟨rfl, rfl⟩
+    rw [← hb]; exact ⟨rfl, rfl, rfl⟩
+
+/-- run / backend options other than `shots` and `cutoff_dim` are restored by no reader, and never
+written to XIR -/
+theorem other_options_counterexample (P : String → Option ISym) (bb : BB) (x : XIR) (p : Prog) :
+    (toProgramBB P bb = .ok p → p.extra = []) ∧ (toProgramXIR P x = .ok p → p.extra = []) := by
+  constructor
+  · intro h
+    unfold toProgramBB at h
+    split at h
+    · cases h
+    · split at h
+      · simp only [fromBBTdm, bind, Except.bind] at h
+        split at h
+        · cases h
+        · cases h; rfl
+      · simp only [fromBB, bind, Except.bind] at h
+        split at h
+        · cases h
+        · cases h; rfl
+  · intro h
+    unfold toProgramXIR at h
+    split at h
+    · unfold fromXIRTdm at h
+      split at h
+      · cases h
+      · cases h
+      · simp only [bind, Except.bind] at h
+        split at h
+        · cases h
+        · cases h; rfl
+    · unfold fromXIR at h
+      split at h
+      · cases h
+      · simp only [bind, Except.bind] at h
+        split at h
+        · cases h
+        · cases h; rfl
 
 /-- constructor keyword options outside `op.p` are lost by the readers (both IRs) -/
 theorem constructor_kwargs_counterexample (cls : String) (regs : List Nat) (args : List Val)
@@ -209,5 +352,19 @@ theorem constructor_kwargs_counterexample (cls : String) (regs : List Nat) (args
   · split at h
     · cases h
     · cases h; rfl
+
+/-- XIR has no string values: a string parameter never comes back as a string (it is read as an expression
+over symbols, or the reader raises) -/
+theorem string_parameter_xir_counterexample (P : String → Option ISym) (tdm : Bool) (k : Nat) (s : String)
+    (v : Val) (h : rdX P tdm k (xirArg tdm (.str s)) = .ok v) : ∃ e, v = .rrt e := by
+  cases tdm
+  · simp only [rdX, Bool.false_eq_true, ↓reduceIte, xirArg, xirReadArg, xirExpr] at h
+    split at h
+    · cases h; exact ⟨_, rfl⟩
+    · cases h
+  · simp only [rdX, ↓reduceIte, xirArg, xirReadArgTdm, xirExpr] at h
+    split at h
+    · cases h; exact ⟨_, rfl⟩
+    · cases h
 
 end SFV.C14
